@@ -110,15 +110,19 @@ PROPERTIES = {
                       "as the naming convention says, consuming / producing the places of the changed variable in the stated direction and reading "
                       "the place of every other literal; network_to_petrinet (second contract `#structure`): the result consists of the two places "
                       "of every variable and, for every variable with an update function f, the transitions of the clause lists of f & !x (up) and "
-                      "!f & x (down) - node by node and edge by edge; node_percolated_petri_net / node_percolated_network return a value that is a "
+                      "!f & x (down) - node by node and edge by edge; restrict_expression: the result denotes the same function on every valuation inside "
+                      "the space and no longer depends on the fixed variables (only variables of the expression reach Bdd.r_restrict, so no IndexError); "
+                      "percolate_network (second contract `#structure`): the space is percolated first, every update function is replaced by such a "
+                      "restriction to the percolated space, free inputs fixed by it become that constant, nothing else is edited, then the graph is "
+                      "re-inferred and (only if asked) constants are inlined; node_percolated_petri_net / node_percolated_network return a value that is a "
                       "function of (global net, node space) regardless of cache state.",
         "bounded": "network_to_petrinet / percolate_network vs brute-force dynamics (AEON BDD operations dominate them)",
-        "excluded": ["percolate_network: assumed contract; bounded stand-in only",
+        "excluded": ["what AEON's infer_valid_graph / inline_constants do to the edited network (opaque; bounded stand-in only)",
                      "that a net of the proved shape encodes the dynamics (Encodes) is lemma L4 over the Lean model (Biobalm/Petri.lean, Shannon.lean), "
                      "not re-derived from the SMT characterisation"],
         "trusted": ["networkx DiGraph operations", "L5: the syntactic characterisation implies Encodes(restrict(p,T), N, S u T) (cited; bounded validation)",
                     "AEON BooleanNetwork / SymbolicContext / Bdd accessors (AX_AEON_NET, AX_BDD_SEM), transition-name injectivity (AX_TRNAME), "
-                    "attributes as functions of the node name (AX_ATTR)", "one trusted fragment of network_to_petrinet (rejection of parametrised networks, pinned by hash)",
+                    "attributes as functions of the node name (AX_ATTR)", "AEON BooleanExpression / BddVariableSet / UpdateFunction / network editing (AX_EXPR, AX_BN_EDIT)", "one trusted fragment of network_to_petrinet (rejection of parametrised networks, pinned by hash)",
                     "def.DnfOf: the clause generator is a deterministic function of the BDD"],
     },
     "C11": {
